@@ -2675,8 +2675,9 @@ class DeferredFilesystemLock(lockfile.FilesystemLock):
             assert self._tryLockCall is not None
             self._tryLockCall.cancel()
             self._tryLockCall = None
-            if self._timeoutCall is not None and self._timeoutCall.active():
-                self._timeoutCall.cancel()
+            if self._timeoutCall is not None:
+                if self._timeoutCall.active():
+                    self._timeoutCall.cancel()
                 self._timeoutCall = None
 
             if self.lock():
